@@ -41,13 +41,13 @@ def base_case(rng, rvals, kind, api):
         meas = record.JOINS[api]
         case.update(api=api, meas=meas, filt='NONE', sc=rng.choice([1, 1, 0]))
         case['op'] = rng.choice(['<=', '<', '=']) if ed else rng.choice(['>=', '>', '='])
-        case['t'] = [rng.choice([0, 1, 2]), 1] if ed else ([rng.choice([1, 2]), 1] if meas == 'OVERLAP'
+        case['t'] = [rng.choice([0, 1, 2]), 1] if ed else (rng.choice([[1, 1], [2, 1], [3, 2]]) if meas == 'OVERLAP'
                                                            else rng.choice([[1, 2], [1, 3], [2, 3], [1, 1]]))
     else:
         case.update(api=api + '.filter_tables', filt=api, sc=0, op='>=')
         case['tok']['rs'] = 1
         if api == 'OVERLAP':
-            case.update(meas='OVERLAP', t=[rng.choice([1, 2]), 1], op=rng.choice(['>=', '>', '=']),
+            case.update(meas='OVERLAP', t=rng.choice([[1, 1], [2, 1], [3, 2]]), op=rng.choice(['>=', '>', '=']),
                         sc=rng.choice([0, 1]))
         else:
             case['meas'] = rng.choice(['JACCARD', 'COSINE', 'DICE', 'OVERLAP'])
@@ -73,8 +73,14 @@ def variants(rng, case, njobs_values):
         rng.shuffle(c['L']['rows'])
         out.append(('rows-permuted', c))
     elif pick < 0.5:
-        c['L']['index'] = [5] * len(c['L']['rows'])
-        c['R']['index'] = ['k%d' % (j % 2) for j in range(len(c['R']['rows']))]
+        if rng.random() < 0.5:
+            c['L']['index'] = [5] * len(c['L']['rows'])
+            c['R']['index'] = ['k%d' % (j % 2) for j in range(len(c['R']['rows']))]
+        else:
+            # labels repeated among the rows with a join value only; the rows with a missing value have their own
+            for side in ('L', 'R'):
+                sj = c[side]['cols'].index('s')
+                c[side]['index'] = ['p' if r[sj] is not None else 'm%d' % j for j, r in enumerate(c[side]['rows'])]
         out.append(('index-relabelled', c))
     elif pick < 0.75:
         c['L']['cols'] = ['zz'] + c['L']['cols'] + ['yy']
